@@ -8,6 +8,7 @@ use std::sync::{Arc, Condvar, Mutex, RwLock};
 use std_semaphore::Semaphore;
 
 use crate::disk_store::*;
+use crate::errors::QueryError;
 use crate::mem_store::partition::ColumnHandle;
 use crate::mem_store::*;
 use crate::observability::QueryPerfCounter;
@@ -59,7 +60,7 @@ impl DiskReadScheduler {
         handle: &ColumnHandle,
         cols: &RwLock<HashMap<String, Arc<ColumnHandle>>>,
         perf_counter: &QueryPerfCounter,
-    ) -> Option<Arc<Column>> {
+    ) -> Result<Option<Arc<Column>>, QueryError> {
         let partition_handle = (handle.table().to_string(), handle.id());
         if !self
             .load_scheduled
@@ -76,7 +77,7 @@ impl DiskReadScheduler {
         loop {
             // Empty marker
             if handle.is_empty() {
-                return None;
+                return Ok(None);
             // Handle already loaded! Return data.
             } else if handle.is_resident() {
                 let mut maybe_column = handle.try_get();
@@ -88,7 +89,7 @@ impl DiskReadScheduler {
                         handle.update_size_bytes(column.heap_size_of_children());
                     }
                     self.lru.touch(handle.key());
-                    return Some(column.clone());
+                    return Ok(Some(column.clone()));
                 } else {
                     debug!("{}.{} was not resident!", handle.name(), handle.id());
                 }
@@ -134,10 +135,20 @@ impl DiskReadScheduler {
                         handle.name(),
                         perf_counter,
                     ) {
-                        Some(columns) => columns,
-                        None => {
+                        Ok(Some(columns)) => columns,
+                        Ok(None) => {
                             handle.set_empty();
-                            return None;
+                            return Ok(None);
+                        }
+                        Err(err) => {
+                            // Nothing was loaded: let the next query try again
+                            self.load_scheduled
+                                .read()
+                                .unwrap()
+                                .get(&partition_handle)
+                                .unwrap()
+                                .store(false, Ordering::SeqCst);
+                            return Err(err);
                         }
                     }
                 };
@@ -180,7 +191,7 @@ impl DiskReadScheduler {
                 );
                 self.load_scheduled.read().unwrap().get(&partition_handle).unwrap().store(false, Ordering::SeqCst);
                 match result {
-                    Some(column) => return Some(column),
+                    Some(column) => return Ok(Some(column)),
                     None => handle.set_empty(),
                 }
             }
